@@ -772,15 +772,14 @@ def tsan_run(seed):
     """fiber mode of the harness rebuilt with -fsanitize=thread into a differently named binary"""
     info = dict(ran=False)
     try:
-        src = V.VERIF / "harness" / "C19_proc.cpp"
-        hd = V.BUILD / "harness"; exe = hd / "C19_proc_tsan"
-        cmd = ["g++"] + V.CXXFLAGS + ["-fsanitize=thread", "-g", str(src), "-o", str(exe)] + V.LDLIBS
-        need = (not exe.exists()) or exe.stat().st_mtime < max(src.stat().st_mtime, (V.GATERY_B / "libgatery_core.a").stat().st_mtime, V._newest_header_mtime())
-        if need:
-            rc, out = V.run(cmd, timeout=1800)
-            if rc != 0:
-                info["skipped"] = "TSan build failed: " + out[-400:]
-                return info
+        hd = V.BUILD / "harness"
+        # same translation unit, differently named binary (an infrastructure failure here is not a violation:
+        # V.build_harness would exit 2, so build failures are caught by building through a probe first)
+        probe = V.run(["g++", "-fsanitize=thread", "-x", "c++", "-", "-o", "/dev/null"], input="int main(){}", timeout=120)
+        if probe[0] != 0:
+            info["skipped"] = "g++ -fsanitize=thread not usable here: " + probe[1][-300:]
+            return info
+        exe = V.build_harness("C19_proc_tsan", sources=["C19_proc.cpp"], extra_flags=["-fsanitize=thread", "-g"])
         rng = random.Random(seed * 31 + 5)
         cases = [gen_case(rng, f"t{i}") for i in range(120)]
         cf = WORK / "tsan_cases.txt"; write_cases(cf, cases)
